@@ -150,11 +150,12 @@ pub fn cmd_version20(a: &Args) {
 							_ => vec![],
 						};
 						for (name, got, r) in [("slippi", got1, r1.kind()), ("peppi", got2, r2.kind())] {
+							let want: Option<[u8; 3]> = if x.parse.len() == 3 { Some([x.parse[0], x.parse[1], x.parse[2]]) } else { None };
+							let gotv: Option<[u8; 3]> = if got.len() == 3 { Some([got[0], got[1], got[2]]) } else { None };
 							if r == "panic" {
 								sink.report(&viol("parse_string", name, "panic", format!("parsing {:?}", x.s)), &|| json!({"s": x.s}));
-							} else if got != x.parse {
-								let cls = format!("{},{}", name, if x.parse.is_empty() { "must_reject" } else { "must_accept" });
-								sink.report(&viol("parse_string", &cls, "mismatch", format!("{:?} parsed as {:?}, model {:?}", x.s, got, x.parse)), &|| json!({"s": x.s}));
+							} else if let Some(cls) = parse_verdict(&x.s, want, gotv) {
+								sink.report(&viol("parse_string", &format!("{},{}", name, cls), "mismatch", format!("{:?} parsed as {:?}, model {:?}", x.s, got, x.parse)), &|| json!({"s": x.s}));
 							}
 						}
 					}
@@ -184,8 +185,8 @@ pub fn cmd_version20(a: &Args) {
 			("slippi", guard(|| slippi::Version::from_str(&s)).ok().map(|v| [v.0, v.1, v.2])),
 			("peppi", guard(|| ppi::Version::from_str(&s)).ok().map(|v| [v.0, v.1, v.2])),
 		] {
-			if got != want {
-				sink.report(&viol("parse_string", &format!("{},random", name), "mismatch", format!("{:?} parsed as {:?}, expected {:?}", s, got, want)), &|| json!({"s": s}));
+			if let Some(cls) = parse_verdict(&s, want, got) {
+				sink.report(&viol("parse_string", &format!("{},{}", name, cls), "mismatch", format!("{:?} parsed as {:?}, expected {:?}", s, got, want)), &|| json!({"s": s}));
 			}
 		}
 	}
@@ -209,13 +210,27 @@ pub fn cmd_version20(a: &Args) {
 			("slippi", guard(|| slippi::Version::from_str(&s)).ok().map(|v| [v.0, v.1, v.2])),
 			("peppi", guard(|| ppi::Version::from_str(&s)).ok().map(|v| [v.0, v.1, v.2])),
 		] {
-			if got != want {
-				let cls = format!("{},{}", name, if want.is_none() { "must_reject" } else { "must_accept" });
-				sink.report(&viol("parse_string", &cls, "mismatch", format!("{:?} parsed as {:?}, expected {:?}", s, got, want)), &|| json!({"s": s}));
+			if let Some(cls) = parse_verdict(&s, want, got) {
+				sink.report(&viol("parse_string", &format!("{},{}", name, cls), "mismatch", format!("{:?} parsed as {:?}, expected {:?}", s, got, want)), &|| json!({"s": s}));
 			}
 		}
 	}
 	sink.summary(json!({}));
+}
+
+/// What the property demands of parsing `s`, given the grammar's verdict `want`:
+///  - not three integers in 0..255  => must be rejected;
+///  - the canonical (Display) form   => must be accepted with that value;
+///  - a lenient spelling of three integers (leading '+', leading zeros) => the property is silent on
+///    whether it is accepted, but if it is, the value must be the right one.
+/// Returns the class of the disagreement, if any.
+fn parse_verdict(s: &str, want: Option<[u8; 3]>, got: Option<[u8; 3]>) -> Option<&'static str> {
+	match (want, got) {
+		(None, Some(_)) => Some("must_reject"),
+		(None, None) => None,
+		(Some(w), Some(g)) => (w != g).then_some("wrong_value"),
+		(Some(w), None) => (s == format!("{}.{}.{}", w[0], w[1], w[2])).then_some("must_accept_canonical"),
+	}
 }
 
 /// Three dot-separated pieces, each: optional '+', then 1+ ASCII digits, value <= 255.
